@@ -37,6 +37,10 @@ TRUSTED = [
     "are tied by correspondence only",
     "T4 compares the estimate with C10's finalizer MODEL (Model/C10/Spend.lean, tied to btclib by C10's streams); "
     "type_and_payload facts and key sizes are hypotheses of the per-template theorems",
+    "taproot script path: btclib ships no sizer and finishes only the key path and a lone single-key leaf; multi_a leaves "
+    "are signed, never finalized (theorem on C10's finalizer model + oracle psbt.estimate_tapleaf on the real code)",
+    "Block/Tx size sums: the items' own sizes are integer parameters of the translated _serialized_size functions "
+    "(read off real objects by the size.block stream)",
 ]
 ASSUMPTIONS = ["vsize = ceil(weight/4) is exact only for weight < 2^53 (float division in the source); "
                "consensus weights are < 4*10^6"]
@@ -545,6 +549,11 @@ def _with_worst_case_sigs(tx):
 # ---- raw-key templates: every signable shape × key compression (the library's xpub signer only derives compressed keys)
 RAW_SHAPES = ["pkh", "sh(pkh)", "wsh(pkh)", "sh(wsh(pkh))", "pk", "sh(pk)", "wsh(pk)", "sh(wsh(pk))", "multi23",
               "sh(multi23)", "wsh(multi23)", "sh(wsh(multi12))", "multi11", "wsh(multi33)", "wpkh", "sh(wpkh)"]
+# every threshold OP_1 … OP_16 the p2ms shape admits (`m_of_n` shapes are parsed, not listed): the estimate reads m
+# off the op code, and OP_16 = 0x60 is the one whose low nibble is not m
+MOFN_SHAPES = [f"wsh({m}of16)" for m in range(1, 17)] + ["wsh(15of15)", "wsh(16of16)", "sh(wsh(16of16))", "sh(wsh(15of16))",
+                                                          "16of16", "sh(15of15)", "sh(1of15)", "wsh(1of1)", "wsh(8of9)"]
+RAW_SHAPES_ALL = RAW_SHAPES + MOFN_SHAPES
 
 
 def _raw_prv(i):
@@ -586,6 +595,18 @@ def _raw_input(shape, comp, k0):
     ms = lambda m, ks: ser([f"OP_{m}", *ks, f"OP_{len(ks)}", "OP_CHECKMULTISIG"])  # noqa: E731
     wsh = lambda sc: ScriptPubKey.p2wsh(sc).script  # noqa: E731
     sh = lambda sc: ScriptPubKey.p2sh(sc).script  # noqa: E731
+    if "of" in shape:
+        import re
+        m, n = map(int, re.search(r"(\d+)of(\d+)", shape).groups())
+        ks = [_raw_pub((k0 + j) % 64, comp) for j in range(n)]
+        sc = ms(m, ks)
+        if shape.startswith("sh(wsh("):
+            return (sh(wsh(sc)), wsh(sc), sc, ks)
+        if shape.startswith("wsh("):
+            return (wsh(sc), b"", sc, ks)
+        if shape.startswith("sh("):
+            return (sh(sc), sc, b"", ks)
+        return (sc, b"", b"", ks)
     pkh, pk = ScriptPubKey.p2pkh(k[0]).script, ScriptPubKey.p2pk(k[0]).script
     if shape in ("wpkh", "sh(wpkh)"):
         wp = ScriptPubKey.p2wpkh(_raw_pub(k0 % 64, True)).script      # BIP143: compressed only (btclib refuses the other)
@@ -607,7 +628,7 @@ def _raw_psbt(inputs, n_out):
     from btclib.bip32 import BIP32KeyOrigin
     ins, prevs = [], []
     for i, (shape_i, comp, k0) in enumerate(inputs):
-        spk, redeem, ws, keys = _raw_input(RAW_SHAPES[shape_i], bool(comp), k0)
+        spk, redeem, ws, keys = _raw_input(RAW_SHAPES_ALL[shape_i], bool(comp), k0)
         prev = Tx(vin=[TxIn(OutPoint(bytes([i + 1]) * 32, i))], vout=[TxOut(100_000 + i, spk, check_validity=False)],
                   check_validity=False)
         hd = {key: BIP32KeyOrigin("deadbeef", f"m/{i}/{j}") for j, key in enumerate(keys)}
@@ -631,7 +652,7 @@ def _o_estimate_raw(w):
     verify_transaction(prevs, tx)
     worst = _with_worst_case_sigs(tx).weight
     ok = est_w >= worst >= tx.weight and est_v >= tx.vsize
-    names = [RAW_SHAPES[s] + ("" if c else "/uncompressed") for s, c, _ in w["inputs"]]
+    names = [RAW_SHAPES_ALL[s] + ("" if c else "/uncompressed") for s, c, _ in w["inputs"]]
     return ok, f"{names} est={est_w} actual={tx.weight} worst-case-sigs={worst}"
 
 
@@ -1460,7 +1481,13 @@ def _run_psize(ctx):
             line = f"psize.input {hx(spk)} {hx(pin.redeem_script)} {hx(pin.witness_script)} {ktok} None 0 _ - None"
         lines.append(line)
         ctx.count("psize.raw", RAW_SHAPES[sh_i] + ("" if comp else "/uncompressed"))
-    # an uncompressed p2pkh key, known and unknown to the psbt
+    # every multisig threshold OP_1 … OP_16, bare / sh / wsh / sh-wsh (the size model reads m off the first op code)
+    for m in range(1, 17):
+        for n in sorted({m, 16, rng.randrange(m, 17)}):
+            for wrap in ("{}", "wsh({})", "sh(wsh({}))") + (("sh({})",) if n <= 15 else ()):
+                spk, redeem, ws, keys = _raw_input(wrap.format(f"{m}of{n}"), True, rng.randrange(60))
+                lines.append(f"psize.input {hx(spk)} {hx(redeem)} {hx(ws)} - None 0 _ - None")
+                ctx.count("psize.threshold", f"OP_{m}")
     unc = bytes.fromhex("04" + KEY[2:]) + bytes.fromhex(
         "1ae168fea63dc339a3c58419466ceaeef7f632653266d0e1236431a950cfe52a")
     spk = ScriptPubKey.p2pkh(unc).script
@@ -1517,6 +1544,13 @@ def _run_estimate(ctx):
         for comp in (1, 0):
             ctx.check("psbt.estimate_raw", {"inputs": [[sh_i, comp, rng.randrange(60)]], "n_out": 1})
             ctx.count("estimate.raw", RAW_SHAPES[sh_i] + ("" if comp else "/uncompressed"))
+    # the multisig threshold over its whole range OP_1 … OP_16 (quick: the edges and two inside; thorough: all)
+    mofn = list(range(len(RAW_SHAPES), len(RAW_SHAPES_ALL)))
+    edges = [i for i in mofn if RAW_SHAPES_ALL[i] in ("wsh(1of16)", "wsh(15of16)", "wsh(16of16)", "wsh(15of15)",
+                                                       "sh(wsh(16of16))", "16of16", "sh(15of15)", "wsh(1of1)")]
+    for sh_i in (mofn if ctx.tier != "quick" else edges + rng.sample(mofn, 2)):
+        ctx.check("psbt.estimate_raw", {"inputs": [[sh_i, 1, rng.randrange(60)]], "n_out": 1})
+        ctx.count("estimate.raw", RAW_SHAPES_ALL[sh_i])
     for _ in range(ctx.n(150, 3000)):
         ins = [[rng.randrange(len(RAW_SHAPES)), rng.choice([0, 1]), rng.randrange(60)] for _ in range(rng.choice([1, 2, 3, 4]))]
         ctx.check("psbt.estimate_raw", {"inputs": ins, "n_out": rng.choice([1, 2])})
